@@ -38,7 +38,6 @@ Definition fixed_leaf (k : kind) : option str :=
   end.
 
 Definition leaf_ok (k : kind) (s : str) (t : tree) : bool :=
-  negb (inner_kind k) &&
   (if quiet_leaf k then match sig s with [] => true | _ => false end else true) &&
   (match fixed_leaf k with Some lit => str_eqb s lit | None => true end) &&
   (match k with KLineComment | KBlockComment => comment_sig_ok t | _ => true end).
@@ -120,6 +119,30 @@ Definition delimited_inner {A} (kof : A -> kind) (cs : list A) : list A :=
       end
   end.
 
+(* the look-ahead state machines of convert_closure (0 name, 1 params, 2 body) and convert_for_loop (0 pattern, 1 iterable, 2 body) *)
+Fixpoint closure_okb (cs : list tree) (st : nat) : bool :=
+  match cs with
+  | [] => true
+  | c :: r =>
+      if is_generic c || kind_eqb (kind_of c) KEq || kind_eqb (kind_of c) KArrow then closure_okb r st
+      else match st with
+           | O => if kind_eqb (kind_of c) KIdent then closure_okb r 1%nat else sig_empty c && closure_okb r 0%nat
+           | S O => if kind_eqb (kind_of c) KParams then closure_okb r 2%nat else sig_empty c && closure_okb r 1%nat
+           | _ => if is_expr c then closure_okb r 2%nat else sig_empty c && closure_okb r 2%nat
+           end
+  end.
+Fixpoint for_okb (cs : list tree) (st : nat) : bool :=
+  match cs with
+  | [] => true
+  | c :: r =>
+      if is_generic c then for_okb r st
+      else match st with
+           | O => if is_pattern c then for_okb r 1%nat else sig_empty c && for_okb r 0%nat
+           | S O => if is_expr c then for_okb r 2%nat else sig_empty c && for_okb r 1%nat
+           | _ => if is_expr c then for_okb r 2%nat else sig_empty c && for_okb r 2%nat
+           end
+  end.
+
 Section NodeOk.
   (* per kind: the children a converter does not hand on carry no signature; see SigConv.v for the use of each clause *)
   Definition all_kept (kept : tree -> bool) (cs : list tree) : bool :=
@@ -166,6 +189,15 @@ Section NodeOk.
             all_kept (fun c => kind_eqb (kind_of c) KMath) inner
         | _, _ => false
         end
+    | KLoopBreak => str_eqb (tsigl cs) [98; 114; 101; 97; 107]
+    | KLoopContinue => str_eqb (tsigl cs) [99; 111; 110; 116; 105; 110; 117; 101]
+    | KListItem | KEnumItem | KTermItem =>
+        all_kept (fun c => match kind_of c with
+                           | KListMarker | KEnumMarker | KTermMarker | KColon | KParbreak => true
+                           | KMarkup => negb (match children c with [] => true | _ => false end)
+                           | _ => false end) cs
+    | KClosure => closure_okb cs (match closure_name (Inner KClosure cs no_attrs) with Some _ => 0%nat | None => 1%nat end)
+    | KForLoop => for_okb cs 0%nat
     | KCode => true
     | KCodeBlock => lwalkb is_expr (flat_map (fun c => if kind_eqb (kind_of c) KCode then children c else [c]) cs) false
     | KArgs => args_ok cs && margs_ok cs
@@ -195,6 +227,8 @@ End NodeOk.
 
 Fixpoint sc (t : tree) : bool :=
   match t with
-  | Leaf k s _ => leaf_ok k s t
+  | Leaf k s _ =>
+      (* a node of an inner kind without children is dumped as a leaf with empty text *)
+      if inner_kind k then (match s with [] => true | _ => false end) && knode_ok k [] else leaf_ok k s t
   | Inner k cs _ => inner_kind k && knode_ok k cs && forallb sc cs
   end.
